@@ -1,0 +1,242 @@
+//! Verification hooks (cargo feature `verif`, off by default).
+//!
+//! Everything in here is inert unless the corresponding `RBP_VERIF_*`
+//! environment variable is set. The hooks only *observe* (append-only JSONL
+//! event log) or, for `RBP_VERIF_JITTER`, delay the current rayon task.
+use std::fs::{self, File, OpenOptions};
+use std::io::{self, BufRead, Write};
+use std::sync::{Mutex, OnceLock};
+
+use crate::blockchain::proto::block::Block;
+use crate::blockchain::proto::script::{self, ScriptPattern};
+use crate::common::utils;
+
+struct EventLog {
+    file: File,
+    seq: u64,
+}
+
+static LOG: OnceLock<Option<Mutex<EventLog>>> = OnceLock::new();
+static JITTER: OnceLock<Option<u64>> = OnceLock::new();
+
+fn log() -> Option<&'static Mutex<EventLog>> {
+    LOG.get_or_init(|| {
+        let path = std::env::var_os("RBP_VERIF_LOG")?;
+        let file = OpenOptions::new()
+            .create(true)
+            .append(true)
+            .open(path)
+            .expect("verif: unable to open RBP_VERIF_LOG");
+        Some(Mutex::new(EventLog { file, seq: 0 }))
+    })
+    .as_ref()
+}
+
+/// Appends one event; sequence number and write happen under one lock.
+fn emit(body: std::fmt::Arguments) {
+    if let Some(log) = log() {
+        let mut log = log.lock().unwrap();
+        let seq = log.seq;
+        log.seq += 1;
+        let line = format!("{{\"seq\":{},{}}}\n", seq, body);
+        log.file
+            .write_all(line.as_bytes())
+            .expect("verif: unable to write event");
+    }
+}
+
+pub fn on_start(height: u64) {
+    emit(format_args!("\"ev\":\"start\",\"height\":{}", height));
+}
+
+pub fn on_complete(height: u64) {
+    emit(format_args!("\"ev\":\"complete\",\"height\":{}", height));
+}
+
+/// H1: a block is about to be handed to the callback
+pub fn deliver(block: &Block, height: u64) {
+    emit(format_args!(
+        "\"ev\":\"deliver\",\"height\":{},\"hash\":\"{}\",\"prev\":\"{}\",\"ntx\":{}",
+        height,
+        block.header.hash,
+        block.header.value.prev_hash,
+        block.txs.len()
+    ));
+}
+
+/// H2: index record used for a height
+pub fn fetch(height: u64, blk_index: u64, data_offset: u64) {
+    emit(format_args!(
+        "\"ev\":\"fetch\",\"height\":{},\"file\":{},\"offset\":{}",
+        height, blk_index, data_offset
+    ));
+}
+
+pub fn blk_open(path: &std::path::Path) {
+    emit(format_args!("\"ev\":\"blk_open\",\"path\":{:?}", path.display().to_string()));
+}
+
+pub fn blk_close(path: &std::path::Path, was_open: bool) {
+    emit(format_args!(
+        "\"ev\":\"blk_close\",\"path\":{:?},\"was_open\":{}",
+        path.display().to_string(),
+        was_open
+    ));
+}
+
+/// H2: census of the real descriptors of this process that point to blk*.dat files
+pub fn fd_census(height: u64) {
+    if log().is_none() {
+        return;
+    }
+    let mut open = Vec::new();
+    let mut total = 0u64;
+    if let Ok(dir) = fs::read_dir("/proc/self/fd") {
+        for entry in dir.flatten() {
+            total += 1;
+            if let Ok(target) = fs::read_link(entry.path()) {
+                let is_blk = target
+                    .file_name()
+                    .and_then(|n| n.to_str())
+                    .map(|n| n.starts_with("blk") && n.ends_with(".dat"))
+                    .unwrap_or(false);
+                if is_blk {
+                    open.push(format!("{:?}", target.display().to_string()));
+                }
+            }
+        }
+    }
+    open.sort();
+    emit(format_args!(
+        "\"ev\":\"fds\",\"height\":{},\"total\":{},\"blk\":[{}]",
+        height,
+        total,
+        open.join(",")
+    ));
+}
+
+fn jitter(a: u64, b: u64) {
+    let seed = JITTER.get_or_init(|| {
+        std::env::var("RBP_VERIF_JITTER")
+            .ok()
+            .and_then(|v| v.parse::<u64>().ok())
+    });
+    if let Some(seed) = seed {
+        // splitmix64 of (seed, a, b) -> 0..300 microseconds
+        let mut z = seed
+            .wrapping_add(a.wrapping_mul(0x9E3779B97F4A7C15))
+            .wrapping_add(b.wrapping_mul(0xD1B54A32D192ED03));
+        z = (z ^ (z >> 30)).wrapping_mul(0xBF58476D1CE4E5B9);
+        z = (z ^ (z >> 27)).wrapping_mul(0x94D049BB133111EB);
+        z ^= z >> 31;
+        std::thread::sleep(std::time::Duration::from_micros(z % 300));
+    }
+}
+
+fn thread_index() -> i64 {
+    rayon::current_thread_index().map(|i| i as i64).unwrap_or(-1)
+}
+
+/// H3: a transaction is being evaluated by the current (rayon) thread
+pub fn eval_tx(version: u32, locktime: u32) {
+    emit(format_args!(
+        "\"ev\":\"eval_tx\",\"version\":{},\"locktime\":{},\"thread\":{}",
+        version,
+        locktime,
+        thread_index()
+    ));
+    jitter(version as u64, locktime as u64);
+}
+
+/// H3: an output script is being evaluated by the current (rayon) thread
+pub fn eval_out(value: u64) {
+    emit(format_args!(
+        "\"ev\":\"eval_out\",\"value\":{},\"thread\":{}",
+        value,
+        thread_index()
+    ));
+    jitter(value, 0x6f7574);
+}
+
+fn pattern_name(pattern: &ScriptPattern) -> String {
+    match pattern {
+        ScriptPattern::OpReturn(_) => String::from("OpReturn"),
+        ScriptPattern::Error(e) => format!("Error({:?})", e),
+        p => format!("{:?}", p),
+    }
+}
+
+/// H4: `RBP_VERIF_EVAL`: reads `<version_id> <script hex>` lines from stdin, prints
+/// `<pattern>\t<address or ->\t<x + OP_RETURN payload hex, or ->` (or `PANIC\t<message>`) per line.
+fn eval_mode() {
+    std::panic::set_hook(Box::new(|_| {}));
+    let stdin = io::stdin();
+    let stdout = io::stdout();
+    let mut out = io::BufWriter::new(stdout.lock());
+    for line in stdin.lock().lines() {
+        let line = line.expect("verif: stdin");
+        let mut parts = line.split_whitespace();
+        let version_id: u8 = match parts.next() {
+            Some(v) => v.parse().expect("verif: version id"),
+            None => continue,
+        };
+        let bytes = utils::hex_to_vec(parts.next().unwrap_or(""));
+        let res = std::panic::catch_unwind(|| script::eval_from_bytes(&bytes, version_id));
+        match res {
+            Ok(s) => {
+                let payload = match &s.pattern {
+                    ScriptPattern::OpReturn(d) => format!("x{}", utils::arr_to_hex(d.as_bytes())),
+                    _ => String::from("-"),
+                };
+                writeln!(
+                    out,
+                    "{}\t{}\t{}",
+                    pattern_name(&s.pattern),
+                    s.address.as_deref().unwrap_or("-"),
+                    payload
+                )
+                .unwrap();
+            }
+            Err(e) => {
+                let msg = e
+                    .downcast_ref::<String>()
+                    .cloned()
+                    .or_else(|| e.downcast_ref::<&str>().map(|s| s.to_string()))
+                    .unwrap_or_default();
+                writeln!(out, "PANIC\t{}\t-", msg.replace(['\t', '\n'], " ")).unwrap();
+            }
+        }
+    }
+    out.flush().unwrap();
+}
+
+/// H5: `RBP_VERIF_MEAN`: reads whitespace separated u32 lists from stdin (one per line),
+/// prints `utils::get_mean` of each with 6 decimals (or `PANIC`).
+fn mean_mode() {
+    std::panic::set_hook(Box::new(|_| {}));
+    let stdin = io::stdin();
+    for line in stdin.lock().lines() {
+        let line = line.expect("verif: stdin");
+        let values: Vec<u32> = line
+            .split_whitespace()
+            .map(|v| v.parse().expect("verif: u32"))
+            .collect();
+        match std::panic::catch_unwind(|| utils::get_mean(&values)) {
+            Ok(mean) => println!("{:.6}", mean),
+            Err(_) => println!("PANIC"),
+        }
+    }
+}
+
+/// Called first thing in main(); returns true if a tool mode handled the invocation.
+pub fn tool_mode() -> bool {
+    if std::env::var_os("RBP_VERIF_EVAL").is_some() {
+        eval_mode();
+        true
+    } else if std::env::var_os("RBP_VERIF_MEAN").is_some() {
+        mean_mode();
+        true
+    } else {
+        false
+    }
+}
